@@ -171,7 +171,10 @@ def run(ctx, report: Report) -> None:
         raise AnalysisError('Inputs.validate_day: expected (year, month, day)')
     yv, mv, dv = ynames
     evaluable = True
-    # the year may only be used under `% k` with k | 400
+    # when the year is only used under `% k` with k | 400 (in validate_day itself) the table over the 400 residues is exact;
+    # when it flows anywhere else (a helper function, a table lookup) the function is interpreted - helpers included - on the
+    # years 1..800 and a list of larger ones: bounded
+    exact = True
     for n in ast.walk(dfn):
         if isinstance(n, ast.Name) and n.id == yv and isinstance(n.ctx, ast.Load):
             par = mmod.parents.get(n)
@@ -182,30 +185,33 @@ def run(ctx, report: Report) -> None:
                 if any('validate_day' in f.key for f in r3.findings):
                     evaluable = False      # the year goes to a calendar-library call: C18-R3 has reported it
                     break
-                raise AnalysisError(f'Inputs.validate_day: year is used as `{unparse(par)}`, not only under % k with k | 400: '
-                                    'the residue abstraction does not apply')
+                exact = False
+    from ..interp import Raised as _Rz, call_function as _cf
+    years = list(range(2000, 2400)) if exact else (list(range(1, 801)) + [1600, 1900, 2000, 2023, 2024, 2100, 2400, 9999, 10000, 10100, 12345, 400000, 400004])
+    state = {}        # module-level state of the interpreted package is carried from one call to the next (a table that is written to shows)
     bad = None
     n_eval = 0
     for month in (range(1, 13) if evaluable else ()):
-        for yr in range(400):
-            exp = DAYS[month] + (1 if month == 2 and is_leap(yr if yr else 400) else 0)
+        for yr in years:
+            exp = DAYS[month] + (1 if month == 2 and is_leap(yr) else 0)
             for day in (0, 1, exp, exp + 1):
                 try:
-                    ev = miniev.MiniEval({yv: yr + 2000, mv: month, dv: day},
-                                         consts=lambda n: inv.folder.lookup('css_match', n))
-                    got = bool(ev.run(dfn.body))
+                    got = _cf(ctx, 'css_match.Inputs.validate_day', [yr, month, day], {}, {}, None, {'persist': state})
+                    got = bool(got)
+                except _Rz as e:
+                    got = f'raises {e.exc_name}'
                 except miniev.Unsupported as e:
                     raise AnalysisError(f'Inputs.validate_day: outside the evaluable fragment: {e}')
                 n_eval += 1
                 if got != (1 <= day <= exp) and bad is None:
                     bad = (yr, month, day, got)
-    r2.instance({'validator': 'validate_day', 'abstract_cases': n_eval, 'first_disagreement': bad}, key='validate_day')
+    r2.instance({'validator': 'validate_day', 'cases': n_eval, 'exact_over_year_residues': exact, 'first_disagreement': bad}, key='validate_day')
     r2.obligation(bad is None)
     if bad is not None:
         yr, month, day, got = bad
         r2.violation('css_match.Inputs.validate_day calendar', mmod.where(dfn),
-                     f'Inputs.validate_day says {got} for day {day} of month {month} in a year = {yr} (mod 400); the '
-                     f'proleptic Gregorian calendar says {not got}')
+                     f'Inputs.validate_day says {got} for day {day} of month {month} in the year {yr}' + (' (any year with the same residue mod 400)' if exact else '') +
+                     f'; the proleptic Gregorian calendar says {1 <= day <= (DAYS[month] + (1 if month == 2 and is_leap(yr) else 0))}')
 
     # ---- R4 ---------------------------------------------------------------------------------------------
     r4 = report.rule('C18-R4', 'range types agree between definition, parser and comparison', floor=1)
